@@ -514,3 +514,99 @@ Theorem scoll_reserve_refines log2 s sp size cap answer s2 ok evs : SCPR s sp ->
   (forall addr, answer = Some addr -> CWB sp addr (ar_next (cc_ar _ s))) -> sc_reserve log2 s size cap answer = Some (s2, ok, evs) ->
   exists sp2, acc_evs sp evs = Some sp2 /\ SCPR s2 sp2 /\ (ok = true -> exists m, In (EIns (coll_bkt_me 1%N log2 size) m cap) evs).
 Proof. apply (reserve_op_refines smg sg_ns sg_free sg_step (coll_bkt_me 1%N log2) small_usable LSmall SGR sgr_list sgr_pos sg_step_refines small_usable_nodes sg_step_ns sgr_ranges). Qed.
+
+(* ---------- array requests: progress for the collection over the address-ordered list ---------- *)
+Lemma run_len_cons2 x y tl step : run_len (x :: y :: tl) step = if x + step =? y then S (run_len (y :: tl) step) else 1%nat.
+Proof. reflexivity. Qed.
+Lemma run_len_pos x tl step : (1 <= run_len (x :: tl) step)%nat.
+Proof. destruct tl as [|y tl]; [cbn; lia|]. rewrite run_len_cons2. destruct (_ =? _); lia. Qed.
+Lemma run_len_le_length : forall ns step, (run_len ns step <= length ns)%nat.
+Proof. induction ns as [|x tl IH]; intros step; [cbn; lia|]. destruct tl as [|y tl]; [cbn; lia|]. rewrite run_len_cons2. specialize (IH step). destruct (_ =? _); cbn [length] in *; lia. Qed.
+
+Lemma run_len_ge : forall ns step n, (1 <= n <= length ns)%nat -> (forall k, (S k < n)%nat -> nth (S k) ns 0 = nth k ns 0 + step) -> (n <= run_len ns step)%nat.
+Proof.
+  induction ns as [|x tl IH]; intros step n Hn Hc; [cbn in Hn; lia|]. destruct tl as [|y tl].
+  - cbn in *. lia.
+  - rewrite run_len_cons2. destruct n as [|[|n]]; [lia|destruct (_ =? _); lia|].
+    pose proof (Hc 0%nat ltac:(lia)) as H0. cbn in H0. rewrite <- H0, Z.eqb_refl.
+    assert (S n <= run_len (y :: tl) step)%nat; [|lia]. apply IH; [cbn [length] in *; lia|]. intros k Hk. apply (Hc (S k)). lia.
+Qed.
+
+Lemma nth_block_nodes : forall cnt m step j, (j < cnt)%nat -> nth j (block_nodes cnt m step) 0 = m + Z.of_nat j * step.
+Proof. induction cnt as [|c IH]; intros m step j Hj; [lia|]. destruct j as [|j]; cbn [block_nodes nth]; [lia|]. rewrite IH by lia. lia. Qed.
+Lemma length_block_nodes cnt m step : length (block_nodes cnt m step) = cnt.
+Proof. revert m. induction cnt as [|c IH]; intros m; cbn; [reflexivity|rewrite IH; reflexivity]. Qed.
+
+(* a run that reaches into a block of consecutive nodes runs through all of it *)
+Lemma run_through_block pre post cnt m step : (1 <= cnt)%nat ->
+  (length pre < run_len (pre ++ block_nodes cnt m step ++ post) step)%nat -> (length pre + cnt <= run_len (pre ++ block_nodes cnt m step ++ post) step)%nat.
+Proof.
+  intros Hc Hr. set (ns := pre ++ block_nodes cnt m step ++ post) in *.
+  assert (Hlen : (length pre + cnt <= length ns)%nat) by (unfold ns; rewrite !app_length, length_block_nodes; lia).
+  apply run_len_ge; [lia|]. intros k Hk. destruct (Nat.lt_ge_cases (S k) (run_len ns step)) as [Hlt|Hge]; [apply run_len_consecutive; exact Hlt|].
+  assert (Hkp : (length pre <= k)%nat) by lia.
+  unfold ns. rewrite !(app_nth2 pre) by lia. rewrite !app_nth1 by (rewrite length_block_nodes; lia). rewrite !nth_block_nodes by lia. replace (S k - length pre)%nat with (S (k - length pre)) by lia. rewrite Nat2Z.inj_succ. ring.
+Qed.
+
+Lemma find_run_block post cnt m step need : (1 <= need <= cnt)%nat -> forall fuel pre idx, (length pre < fuel)%nat ->
+  exists i, find_run fuel (pre ++ block_nodes cnt m step ++ post) step need idx = Some i.
+Proof.
+  intros Hn. induction fuel as [|f IH]; intros pre idx Hf; [lia|]. cbn [find_run].
+  destruct (pre ++ block_nodes cnt m step ++ post) as [|x tl] eqn:E.
+  { exfalso. apply (f_equal (@length Z)) in E. rewrite !app_length, length_block_nodes in E. cbn in E. lia. }
+  rewrite <- E. destruct (Nat.leb_spec need (run_len (pre ++ block_nodes cnt m step ++ post) step)) as [|Hlt]; [eexists; reflexivity|].
+  set (r := run_len (pre ++ block_nodes cnt m step ++ post) step) in *.
+  assert (Hr1 : (1 <= r)%nat) by (unfold r; rewrite E; apply run_len_pos).
+  assert (Hpre : (r <= length pre)%nat).
+  { destruct (Nat.le_gt_cases r (length pre)) as [|Hgt]; [assumption|]. pose proof (run_through_block pre post cnt m step ltac:(lia) Hgt). fold r in H. lia. }
+  assert (Hsk : skipn r (pre ++ block_nodes cnt m step ++ post) = skipn r pre ++ block_nodes cnt m step ++ post).
+  { rewrite skipn_app. replace (r - length pre)%nat with 0%nat by lia. reflexivity. }
+  rewrite Hsk. apply IH. rewrite skipn_length. lia.
+Qed.
+
+Lemma or_prog_arr g s bytes : OR g s -> og_ns g < bytes -> exists g' res, og_step g (UAllocArr bytes) = Some (g', res).
+Proof.
+  intros _ Hb. unfold og_step. cbn [o_of_u ogstep]. unfold og_ns in Hb. destruct (Z.ltb_spec (nsz (og_l g)) bytes); [|lia].
+  destruct (o_alloc_array (og_l g) bytes) as [[x l']|]; eexists _, _; reflexivity.
+Qed.
+Lemma or_prog_arr_after_ins g1 rs l g2 m cap bytes : OR g1 {| us_rs := rs; us_l := l |} -> og_step g1 (UIns m cap) = Some (g2, None) ->
+  og_ns g1 < bytes -> slots_needed (og_ns g1) bytes <= cap / og_ns g1 -> exists g' x, og_step g2 (UAllocArr bytes) = Some (g', Some x).
+Proof.
+  intros Hor Hins Hb Hfit. pose proof Hor as ((_ & _ & _ & Hns) & _). unfold og_ns, og_step in *. cbn [o_of_u ogstep] in Hins.
+  destruct (_ && _) in Hins; [|discriminate]. unfold o_insert in Hins. destruct (find_pos false false (og_l g1) m) as [k| | | |] eqn:Hk; try discriminate.
+  inversion Hins; subst g2; clear Hins. cbn [o_of_u ogstep og_l og_live]. cbn [set_nodes nsz].
+  set (ns := nsz (og_l g1)) in *. destruct (Z.ltb_spec ns bytes); [|lia]. unfold o_alloc_array. cbn [set_nodes nsz nodes]. fold ns. destruct (Z.leb_spec bytes ns); [lia|].
+  unfold nodes_for, n_of. cbn [set_nodes nsz nodes]. fold ns.
+  assert (Esl : slots_needed ns bytes = (bytes + ns - 1) / ns) by (unfold slots_needed; destruct (Z.leb_spec bytes ns); [lia|reflexivity]). rewrite Esl in Hfit.
+  assert (Hq : 1 <= (bytes + ns - 1) / ns) by (apply Z.div_le_lower_bound; lia).
+  unfold insert_at.
+  destruct (find_run_block (skipn k (nodes (og_l g1))) (Z.to_nat (cap / ns)) m ns (Z.to_nat ((bytes + ns - 1) / ns)) ltac:(lia)
+              (S (length (firstn k (nodes (og_l g1)) ++ block_nodes (Z.to_nat (cap / ns)) m ns ++ skipn k (nodes (og_l g1))))) (firstn k (nodes (og_l g1))) 0%nat) as (i & Hi).
+  { rewrite !app_length. lia. }
+  rewrite Hi. eexists _, _. reflexivity.
+Qed.
+
+Definition oarray_answers_ok64 (log2 : bool) := array_answers_ok64 og og_ns og_step (coll_bkt log2) intr_usable.
+Theorem ocoll_alloc_array_progress log2 s sp size bytes a1 a2 : OCPR s sp -> OExt log2 s -> 0 < size <= cc_max _ s -> size <= bytes ->
+  oarray_answers_ok64 log2 s sp size a1 a2 ->
+  exists s' r evs, oc_step log2 s (CAllocArray size bytes a1 a2) = Some (s', r, evs) /\ OExt log2 s'.
+Proof.
+  apply (alloc_array_progress og og_ns og_free og_step (coll_bkt log2) intr_usable LIntrusive OR or_list or_pos og_step_refines intr_usable_nodes og_step_ns or_ranges
+           or_prog_alloc or_prog_ins intr_usable_mono_ns intr_usable_mono_size or_prog_arr or_prog_arr_after_ins intr_usable_mult).
+Qed.
+
+(* ---------- every history of requests and releases: nothing is undescribed (intrusive and ordered list) ---------- *)
+Definition urequest_history_ok (log2 : bool) := request_history_ok ug ug_ns ug_free ugstep (coll_bkt log2) intr_usable.
+Theorem ucoll_request_history_progress log2 os s sp : UCPR s sp -> UExt log2 s -> urequest_history_ok log2 s sp os ->
+  exists s' tr sp', uc_run log2 s os = Some (s', tr) /\ run sp tr = Some sp' /\ UCPR s' sp' /\ UExt log2 s'.
+Proof.
+  apply (request_history_progress ug ug_ns ug_free ugstep (coll_bkt log2) intr_usable LIntrusive UR ur_list ur_pos ustep_refines intr_usable_nodes ugstep_ns ur_ranges
+           ur_prog_alloc ur_prog_ins intr_usable_mono_ns intr_usable_mono_size ur_prog_arr ur_prog_arr_after_ins intr_usable_mult).
+Qed.
+Definition orequest_history_ok (log2 : bool) := request_history_ok og og_ns og_free og_step (coll_bkt log2) intr_usable.
+Theorem ocoll_request_history_progress log2 os s sp : OCPR s sp -> OExt log2 s -> orequest_history_ok log2 s sp os ->
+  exists s' tr sp', oc_run log2 s os = Some (s', tr) /\ run sp tr = Some sp' /\ OCPR s' sp' /\ OExt log2 s'.
+Proof.
+  apply (request_history_progress og og_ns og_free og_step (coll_bkt log2) intr_usable LIntrusive OR or_list or_pos og_step_refines intr_usable_nodes og_step_ns or_ranges
+           or_prog_alloc or_prog_ins intr_usable_mono_ns intr_usable_mono_size or_prog_arr or_prog_arr_after_ins intr_usable_mult).
+Qed.
